@@ -375,3 +375,125 @@ Print Assumptions C17_reads_back_adjusted.
 Print Assumptions C17_adjust_zero_pages_example.
 Print Assumptions C17_no_bookmark.
 Print Assumptions C17_example.
+
+(* ------------------------------------------------------------------------------------------
+   (5') After saving and reloading, with C01_full discharging the premises of (5)
+   (proofs in Proofs/ComposeReload.v, Proofs/ComposeOutline.v).  [savable], [known_deep], [small_file] are C01's
+   domain (Spec/SaveSpec.v); [load] / [save] the models of Reader::read / Document::save_to C01_full is about.
+   [op_ok] / [tbl_ok]: what the Rust types of a Bookmark guarantee (colour = three finite f32, format u32, page an
+   ObjectId, Vec lengths).  The bound on object numbers is C01's (max_id + 2 < 2^32: save needs one more number).
+   The section imports are local to it.
+   ------------------------------------------------------------------------------------------ *)
+From LV Require Model.Save Model.Xref Model.Loader Spec.SaveSpec Proofs.ComposeReload Proofs.ComposeOutline.
+Section AfterSaveAndReload.
+  Import Model.Save Model.Xref Model.Loader Spec.SaveSpec Proofs.ComposeReload Proofs.ComposeOutline.
+
+  (* cross-reference TABLE format.  The document build_outline + attach produce is again in C01's domain (the created
+     objects are well-formed dictionaries without Type, under fresh numbers), so C01_full applies: the file loads, and
+     the loaded document has the same pages and the same table of contents.  No hypothesis on the page tree. *)
+  Theorem C17_reads_back_after_save_load_table :
+    forall d ops cid rid cat fuel2,
+      let b := add_all (fresh_bdoc d) ops in
+      let f := forest_of_ops (map sop_of ops) in
+      let m0 := d_max_id d in
+      f <> [] ->
+      max_id_bounds d ->
+      m0 + 1 + 2 * N.of_nat (OutlineSpec.fsize f) + 2 < u32_mod ->
+      Outline.root_id d = Some cid ->
+      get_object_mut_id (d_objects d) cid = Some (rid, ODict cat) ->
+      no_name_trees cat ->
+      distinct_titles f -> scalar_titles f ->
+      too_deep f = false ->
+      (OutlineSpec.fsize f <= fuel2)%nat ->
+      savable d -> known_deep d = false ->
+      Forall op_ok ops -> N.of_nat (length ops) < u32_mod ->
+      exists b',
+        build_outline (default_fuel b) b = OOk (Some (m0 + 1, 0), b') /\
+        let d2 := attach (base b') cid (m0 + 1, 0) in
+        savable d2 /\ known_deep d2 = false /\
+        (small_file XTable d2 -> targets_are_pages d2 f ->
+         exists d', load (so_bytes (save XTable d2)) = LOk d' XTTable /\
+                    get_pages d' = get_pages d2 /\ get_toc fuel2 d' = TOk (expected_toc d2 f) 0).
+  Proof. exact reads_back_ops_after_save_load_table. Qed.
+
+  (* EITHER format (xt), page trees meeting C12's hypotheses; page numbers of the ORIGINAL document as in (7).  In the
+     stream format the loaded document holds one object more (the cross-reference stream), which enlarges the
+     iteration budget of get_pages -- C12_stream_reload_budget_witness shows that this is visible on a cyclic page
+     tree -- hence the hypotheses of C12_dfs. *)
+  Theorem C17_reads_back_after_save_load :
+    forall d ops cid rid cat fuel2 xt pcat i g ks,
+      let b := add_all (fresh_bdoc d) ops in
+      let f := forest_of_ops (map sop_of ops) in
+      let m0 := d_max_id d in
+      f <> [] ->
+      max_id_bounds d ->
+      m0 + 1 + 2 * N.of_nat (OutlineSpec.fsize f) + 2 < u32_mod ->
+      Outline.root_id d = Some cid ->
+      get_object_mut_id (d_objects d) cid = Some (rid, ODict cat) ->
+      no_name_trees cat ->
+      distinct_titles f -> scalar_titles f ->
+      too_deep f = false ->
+      (OutlineSpec.fsize f <= fuel2)%nat ->
+      savable d -> known_deep d = false ->
+      Forall op_ok ops -> N.of_nat (length ops) < u32_mod ->
+      catalog d = Some pcat ->
+      dict_get pcat K_Pages = Some (ORef i g) ->
+      tree_wf d (PNode (i, g) ks) ->
+      (N.of_nat (height (PNode (i, g) ks)) <= PAGE_TREE_DEPTH_LIMIT + 1)%N ->
+      exists b',
+        build_outline (default_fuel b) b = OOk (Some (m0 + 1, 0), b') /\
+        let d2 := attach (base b') cid (m0 + 1, 0) in
+        savable d2 /\ known_deep d2 = false /\
+        (small_file xt d2 -> targets_are_pages d f ->
+         exists d', load (so_bytes (save xt d2)) = LOk d' (xtype_of xt) /\
+                    get_pages d' = get_pages d /\ get_toc fuel2 d' = TOk (expected_toc d f) 0).
+  Proof. exact reads_back_ops_after_save_load. Qed.
+
+  (* the same over any table that holds a forest (e.g. after adjust_zero_pages), either format *)
+  Theorem C17_reads_back_forest_after_save_load :
+    forall b f cid rid cat fuel fuel2 xt pcat i g ks,
+      bookmarks b = map iid f -> f <> [] ->
+      Forall (trepr (bookmark_table b)) f ->
+      let d := base b in
+      let m0 := d_max_id d in
+      max_id_bounds d ->
+      m0 + 1 + 2 * N.of_nat (OutlineSpec.fsize f) + 2 < u32_mod ->
+      Outline.root_id d = Some cid ->
+      get_object_mut_id (d_objects d) cid = Some (rid, ODict cat) ->
+      no_name_trees cat ->
+      distinct_titles f -> scalar_titles f ->
+      N.of_nat (OutlineSpec.fheight f) <= OUTLINE_DEPTH_LIMIT + 1 ->
+      (OutlineSpec.fheight f <= fuel)%nat ->
+      (OutlineSpec.fsize f <= fuel2)%nat ->
+      savable d -> known_deep d = false -> tbl_ok (bookmark_table b) ->
+      catalog d = Some pcat ->
+      dict_get pcat K_Pages = Some (ORef i g) ->
+      tree_wf d (PNode (i, g) ks) ->
+      (N.of_nat (height (PNode (i, g) ks)) <= PAGE_TREE_DEPTH_LIMIT + 1)%N ->
+      exists b',
+        build_outline fuel b = OOk (Some (m0 + 1, 0), b') /\
+        let d2 := attach (base b') cid (m0 + 1, 0) in
+        savable d2 /\ known_deep d2 = false /\
+        (small_file xt d2 -> targets_are_pages d f ->
+         exists d', load (so_bytes (save xt d2)) = LOk d' (xtype_of xt) /\
+                    get_pages d' = get_pages d /\ get_toc fuel2 d' = TOk (expected_toc d f) 0).
+  Proof. exact reads_back_after_save_load. Qed.
+
+  (* non-vacuity: the example of C17_example meets the additional hypotheses; both reloaded documents read back to the
+     four rows; the stream-format one holds one object more *)
+  Theorem C17_example_after_save_load :
+    savable OutlineProofsProps.ex_doc /\ known_deep OutlineProofsProps.ex_doc = false /\
+    Forall op_ok ex_ops /\ N.of_nat (length ex_ops) < u32_mod /\
+    d_max_id OutlineProofsProps.ex_doc + 1 + 2 * N.of_nat (OutlineSpec.fsize ex_forest) + 2 < u32_mod /\
+    small_file XTable ex_final /\ small_file XStream ex_final /\
+    targets_are_pages ex_final ex_forest /\
+    get_toc 4 (reloaded XTable ex_final) = TOk ex_toc 0 /\
+    get_toc 4 (reloaded XStream ex_final) = TOk ex_toc 0 /\
+    length (d_objects (reloaded XStream ex_final)) = S (length (d_objects ex_final)).
+  Proof. exact ex_after_save_load. Qed.
+End AfterSaveAndReload.
+
+Print Assumptions C17_reads_back_after_save_load_table.
+Print Assumptions C17_reads_back_after_save_load.
+Print Assumptions C17_reads_back_forest_after_save_load.
+Print Assumptions C17_example_after_save_load.
